@@ -141,6 +141,12 @@ def build_app(ending, nchild, when, log, ctl, flaky=0):
             # ONE decorated method shared by all instances of the class: each call registers its own teardown
             log.append(("registered", label))
             yield
+            # the second half runs while the root context is being torn down: lookups are still allowed then
+            from asphalt.core import get_resource
+
+            got = await get_resource(_ResA, f"child{self.idx}_resource", optional=True)
+            if got is None:
+                log.append(("td", label + ":resource-not-found-during-teardown"))
             log.append(("td", label))
 
         async def start(self):
@@ -209,6 +215,26 @@ def build_app(ending, nchild, when, log, ctl, flaky=0):
                     raise ConnectionError("peer went away while being asked to stop")
 
                 await start_service_task(flaky_service, "flaky", teardown_action=failing_stop)
+            if ending <= 10 or ending in (19, 20):
+                # (endings whose teardown is not cancelled) a service task with teardown_action=None: it ends by itself once a later-registered
+                # callback tells it to, and the teardown waits for it at its place in the reverse order
+                drain_stop = anyio.Event()
+
+                async def drain():
+                    await drain_stop.wait()
+                    await anyio.sleep(0)
+                    await anyio.sleep(0)
+                    log.append(("td", "root.drain"))
+
+                await start_service_task(drain, "drain", teardown_action=None)
+                log.append(("registered", "root.drain"))
+
+                def stop_drain():
+                    log.append(("td", "root.drain.stop"))
+                    drain_stop.set()
+
+                add_teardown_callback(stop_drain)
+                log.append(("registered", "root.drain.stop"))
             td_nested("root.nested")
             td_aw("root.awaitable")
             ctl["started"] = anyio.Event()
